@@ -305,7 +305,7 @@ func run(r *mon.Run) {
 	ids := map[string]*gen.Identity{}
 	n := 200
 	if r.Thorough {
-		n = 3000
+		n = 1200
 	}
 	for i := 0; i < n; i++ {
 		if !r.Mine(i) {
